@@ -126,7 +126,17 @@ BoundedVerdict(e) ==
       B == e.bound
       exact == e.next_change
       got == e.next_change_b
-  IN IF e.state_b # e.state THEN "bound_state"
+      \* C08 under a bounded context: the window [t, to_b) asked from the bounded evaluator; its intervals are non-empty, increasing,
+      \* contiguous, start at t and never leave [t, min(to_b, END)) - whatever the approximation replaced
+      w  == e.range_b
+      hi == IMin(e.to_b, EndInstant)
+      windowOk == \/ "range_b" \notin DOMAIN e
+                  \/ /\ \A i \in DOMAIN w : ILt(w[i][1], w[i][2]) /\ ILe(t, w[i][1]) /\ ILe(w[i][2], hi)
+                     /\ \A i \in 1..(Len(w) - 1) : w[i][2] = w[i + 1][1]
+                     /\ (w # <<>> => w[1][1] = t)
+                     /\ (w = <<>> => ~ILt(t, hi))
+  IN IF ~windowOk THEN "bound_range"
+     ELSE IF e.state_b # e.state THEN "bound_state"
      ELSE IF got # <<>> /\ got # exact THEN "bound_wrong"                     \* neither exact nor none
      ELSE IF exact = <<>> THEN "ok"
      ELSE IF PLe(DiffPair(exact, t), <<B[1] - 1, B[2]>>) /\ got # exact THEN "bound_not_exact"
